@@ -10,7 +10,7 @@ for d in seeded/${1:-}*/; do
   id=$(basename $d)
   [ -s $d/patch.diff ] && grep -q "^confirm:" $d/confirm.log 2>/dev/null && ! grep -q "NOT CONFIRMED" $d/confirm.log || continue
   checks=$(grep -o "^== ./check C[0-9][0-9]" $d/checks.log | awk '{print $3}' | sort -u | tr '\n' ' ')
-  if ! git -C $R apply --check $d/patch.diff 2>/dev/null; then echo "- $id: patch no longer applies (code changed by later fixes)" | tee -a $out; continue; fi
+  if ! git -C $R apply --check $V/$d/patch.diff 2>/dev/null; then echo "- $id: patch no longer applies (code changed by later fixes)" | tee -a $out; continue; fi
   res=$(./tools/seedtest.sh $id - $checks 2>&1 | grep "^check " | tr '\n' ';')
   echo "- $id: $res" | tee -a $out
 done
